@@ -77,6 +77,9 @@ def main(tier: str) -> int:
             if not stmts:
                 continue
             nss = list(binds.items())
+            if bi % 2:
+                # labels for namespaces that rdflib pre-binds under OTHER labels on every default Graph/Dataset, and many bindings at once
+                nss += [("sdo", "https://schema.org/"), ("dct", "http://purl.org/dc/terms/")] + [(f"p{k}", f"http://many.example/{k}#") for k in range(9)]
             sclass = {1: "triple", 2: "quad", 3: "graph"}[ptype]
             for integ in ("generic", "rdflib"):
                 if integ == "rdflib" and any(not iri for _, iri in nss):
@@ -86,7 +89,7 @@ def main(tier: str) -> int:
                 entry = "stream_frames" if integ == "generic" else "graph_serialize"
                 cfg = impl.default_cfg(integ=integ, entry=entry, sclass=sclass, ltype=(1 if ptype == 1 else 2), preset=preset,
                                        nsdecl=True, gen=(integ == "generic"), star=(integ == "generic"),
-                                       frame_size=rnd.choice([1, 3, 250]), dataset=(ptype != 1))
+                                       frame_size=rnd.choice([1, 3, 250]), dataset=(ptype != 1), version=(None, 1, 2)[bi % 3])
                 case = {"key": {"universe": uni, "integ": integ, "entry": entry, "sub": sub.label}, "kind": "bound", "integ": integ,
                         "stmts": stmts, "cfg": cfg,
                         "replay": {"cfg": cfg, "statements": stmts, "namespaces": nss_i}}
@@ -106,6 +109,14 @@ def main(tier: str) -> int:
                         add_trace(case, on, True, mode_items, "on")
                     case["back_on"] = _safe(impl.parse, integ, on, "flat")
                     case["graph_on"] = _safe(impl.parse, integ, on, "to_graph")
+                    if integ == "rdflib":
+                        def sink_bindings(on=on):
+                            from pyjelly.integrations.rdflib import parse as rp  # noqa: PLC0415
+                            import io as _io  # noqa: PLC0415
+                            g_ = rp.parse_jelly_to_graph(_io.BytesIO(on))
+                            grouped_ = list(rp.parse_jelly_grouped(_io.BytesIO(on)))
+                            return {(str(a), str(b)) for a, b in g_.namespaces()}, [{(str(a), str(b)) for a, b in x.namespaces()} for x in grouped_]
+                        case["sink_bindings"] = _safe(sink_bindings)
                     # second generation: re-serialize what was read
                     if integ == "generic" and not isinstance(case["back_on"], str):
                         read_ns = [(it[1], it[2]) for it in case["back_on"] if it[0] == "ns"]
@@ -157,6 +168,19 @@ def main(tier: str) -> int:
         if got_ns != declared:
             bad = next(((a, b) for a, b in zip(declared, got_ns) if a != b), (declared[len(got_ns):][:1], got_ns[len(declared):][:1]))
             run.violation({"clause": "declarations-differ", **key}, f"declared {bad[0]!r}, reader received {bad[1]!r}", rp)
+        # the bindings arrive on the sinks the graph-level parsers build (also when the sink already binds that IRI under another label)
+        sb = case.get("sink_bindings")
+        if isinstance(sb, str):
+            run.violation({"clause": "parse-raised", **key}, sb, rp)
+        elif sb is not None:
+            want_pairs = {(a, b) for _, a, b in declared}
+            missing = sorted(want_pairs - sb[0])
+            if missing:
+                run.violation({"clause": "binding-not-delivered-to-graph", **key},
+                              f"parse_jelly_to_graph: declared {missing[:2]} is not bound on the resulting graph", rp)
+            if sb[1] and sorted(want_pairs - set().union(*sb[1])):
+                run.violation({"clause": "binding-not-delivered-to-grouped-sinks", **key},
+                              f"parse_jelly_grouped: declared {sorted(want_pairs - set().union(*sb[1]))[:2]} bound on none of the sinks", rp)
         # statements identical with and without declarations
         st_on = [terms.norm_item(x) for x in back_on if x[0] != "ns"]
         back_off = case.get("back_off")
